@@ -472,8 +472,15 @@ fn fx_shape(f: &FXRates) -> Result<(), String> {
         number_shape(&num).map_err(|e| format!("quote/{}", e))?;
         match (Ccy::try_new(&l), Ccy::try_new(&rr)) {
             (Ok(a), Ok(b)) => {
-                if f.rate(&a, &b).is_none() {
-                    return Err(format!("quoted-pair-unanswered: {}{}", l, rr));
+                match f.rate(&a, &b) {
+                    None => return Err(format!("quoted-pair-unanswered: {}{}", l, rr)),
+                    Some(v) => {
+                        // the object is consistent with its own quotes: a quoted pair is returned as quoted
+                        let (got, want) = (f64::from(&v), f64::from(&num));
+                        if got.to_bits() != want.to_bits() && !(got.is_nan() && want.is_nan()) {
+                            return Err(format!("quoted-pair-not-as-quoted: {}{} reads {:e}, its stored quote is {:e}", l, rr, got, want));
+                        }
+                    }
                 }
             }
             _ => {}
@@ -1116,7 +1123,7 @@ fn evidence_meta(ctx: &Ctx, ncases: usize) -> Meta {
          {},true} or a container by {0,null,[],{}}, swap two sibling values, give an array document every other shape of compatible element count) and, for documents of <= 26 (44) nodes, \
          EVERY pair of mutations. Oracle: the call returns (a panic or an abnormal child exit is a violation); Ok(v) => \
          v satisfies its shape invariants (Dual: |vars| = |dual|; Dual2: also n x n; FXRates: n = quotes + 1, n x n, \
-         quoted pairs answer; PPSpline: n = |t| - k, |c| = n, coefficients well-formed; NamedCal: behaves as its name). \
+         quoted pairs answer with exactly the stored quote; PPSpline: n = |t| - k, |c| = n, coefficients well-formed; NamedCal: behaves as its name). \
          Non-trivial: mutated documents, extreme day counts, improper site layouts, offsets beyond +-1200 months.",
         json!({"cases": ncases, "child_process": true}),
     )
